@@ -23,9 +23,17 @@ Correspondence streams (implementation vs the Lean model run in 192-bit arithmet
              damping / radius / down after every trial;
   gn       : GaussNewton histories (returned loss, `last`, raising solver);
   loss     : `RobustModel.loss` vs `robustLoss` (kernel dispatch, sum over the last dimension).
+Hardening pass (DESIGN §10.2 classes): a deterministic corner corpus runs first (`run_corpus`, independent of
+VERIF_SEED); `edithist` stream (one strategy object serving several param groups of different size/dtype, caller edits of
+pg between updates); pairs of optimizers sharing one strategy object; per-call presentation of the same data as plain /
+clone / strided / slice / transposed views with sentinels; parameters that are views of larger buffers; caller edits of
+`optimizer.reject` and `param_groups` between calls; shared solver / kernel objects; extreme-but-valid settings
+(reject 24/40, hyper-parameters 1e±30, scales 1e±8, start on the optimum); mixed-regime items in the loss stream.
 Oracles on the real code (each is a clause of the property itself, evaluated directly):
   true-loss, monotone-unless-exhausted, restore, solver-raise, trials ≤ reject+1, state continuity,
-  documented strategy transition, [min,max] bounds, GN bookkeeping.
+  documented strategy transition, [min,max] bounds, GN bookkeeping, purity of the caller's tensors / buffers / callback
+  arguments, configuration and strategy-object attributes untouched, values handed out earlier never change, the update
+  really moved the parameters, loop-law (every decision), crash / wrong return type → failing input.
 """
 from __future__ import annotations
 
